@@ -27,6 +27,7 @@ static void fill_eval(uint64_t idx, void *ctx) {
     galloc_reset();
     struct aws_allocator *parent = galloc_get(0, 0);
     struct aws_allocator *sba = aws_small_block_allocator_new(parent, mt != 0);
+    size_t res_fresh = aws_small_block_allocator_bytes_reserved(sba); /* an implementation may prepare a working page per class at creation */
     size_t page = aws_small_block_allocator_page_size(sba), avail = aws_small_block_allocator_page_size_available(sba);
     size_t per_page = avail / CLASS_SZ[cls];
     if (n > 3 * per_page + 2) { /* beyond three pages' worth: nothing new */
@@ -79,7 +80,9 @@ static void fill_eval(uint64_t idx, void *ctx) {
     }
     if (!v_sh->viol_count) {
         size_t res = aws_small_block_allocator_bytes_reserved(sba);
-        BEE_CHECK(res <= page, "idle-pages", "class %zu: everything released (n=%zu, order %u) but bytes_reserved=%zu, more than one %zu-byte working page", CLASS_SZ[cls], n, order, res, page);
+        /* "at most one working page per size class": only one class was used here, so at most one page beyond what a
+         * fresh allocator already holds (nothing in the shipped code, one page per class in an eager implementation) */
+        BEE_CHECK(res <= (res_fresh > page ? res_fresh : page), "idle-pages", "class %zu: everything released (n=%zu, order %u) but bytes_reserved=%zu, more than one %zu-byte working page for the class used (a fresh allocator holds %zu)", CLASS_SZ[cls], n, order, res, page, res_fresh);
     }
     aws_small_block_allocator_destroy(sba);
     BEE_CHECK(ga.live_blocks == 0, "parent-balance", "parent balance %llu after destroy", (unsigned long long)ga.live_blocks);
